@@ -5,7 +5,12 @@
 package c17
 
 import (
+	"fmt"
+	"slices"
 	"testing"
+
+	"github.com/AdguardTeam/golibs/syncutil"
+	"pgregory.net/rapid"
 
 	"verifharness/internal/vp"
 )
@@ -13,6 +18,136 @@ import (
 func TestMain(m *testing.M) { vp.Main(m) }
 
 func TestReplay(t *testing.T) { vp.Replay(t) }
+
+// TypedCase exercises OnceConstructor with value types whose zero / nil values
+// and dynamic types are easy to confuse with internal bookkeeping: interface
+// types (error, any, fmt.Stringer) with nil results, function values, typed
+// nil pointers, zero structs.  Sequential: construct, then Get again several
+// times after the construction has finished.
+type TypedCase struct {
+	Keys   []int `json:"keys"`   // Get sequence
+	NilFor []int `json:"nil_for"` // keys whose constructed value is the nil / zero value
+}
+
+type stringer struct{ s string }
+
+func (s stringer) String() string { return s.s }
+
+func checkTyped(c TypedCase) error {
+	isNil := func(k int) bool { return slices.Contains(c.NilFor, k) }
+	cons := map[int]int{}
+
+	errC := syncutil.NewOnceConstructor(func(k int) error {
+		cons[k]++
+		if isNil(k) {
+			return nil
+		}
+		return fmt.Errorf("err-%d", k)
+	})
+	anyC := syncutil.NewOnceConstructor(func(k int) any {
+		cons[1000+k]++
+		switch {
+		case isNil(k):
+			return nil
+		case k%3 == 0:
+			return func() any { return "inner" }
+		case k%3 == 1:
+			return (*int)(nil)
+		}
+		return k
+	})
+	strC := syncutil.NewOnceConstructor(func(k int) fmt.Stringer {
+		cons[2000+k]++
+		if isNil(k) {
+			return nil
+		}
+		return stringer{s: fmt.Sprint(k)}
+	})
+	fnC := syncutil.NewOnceConstructor(func(k int) func() int {
+		cons[3000+k]++
+		if isNil(k) {
+			return nil
+		}
+		return func() int { return k }
+	})
+	structC := syncutil.NewOnceConstructor(func(k int) struct{ A, B int } {
+		cons[4000+k]++
+		if isNil(k) {
+			return struct{ A, B int }{}
+		}
+		return struct{ A, B int }{k, -k}
+	})
+	for i, k := range c.Keys {
+		e := errC.Get(k)
+		if isNil(k) != (e == nil) || (e != nil && e.Error() != fmt.Sprintf("err-%d", k)) {
+			return fmt.Errorf("Get #%d of key %d with V=error returned %v", i, k, e)
+		}
+		a := anyC.Get(k)
+		switch {
+		case isNil(k):
+			if a != nil {
+				return fmt.Errorf("Get #%d of key %d with V=any returned %v, the constructor returned nil", i, k, a)
+			}
+		case k%3 == 0:
+			f, ok := a.(func() any)
+			if !ok || f() != "inner" {
+				return fmt.Errorf("Get #%d of key %d with V=any returned %T %v, the constructor returned a func() any", i, k, a, a)
+			}
+		case k%3 == 1:
+			if p, ok := a.(*int); !ok || p != nil {
+				return fmt.Errorf("Get #%d of key %d with V=any returned %T %v, the constructor returned a typed nil *int", i, k, a, a)
+			}
+		default:
+			if a != k {
+				return fmt.Errorf("Get #%d of key %d with V=any returned %v", i, k, a)
+			}
+		}
+		st := strC.Get(k)
+		if isNil(k) != (st == nil) || (st != nil && st.String() != fmt.Sprint(k)) {
+			return fmt.Errorf("Get #%d of key %d with V=fmt.Stringer returned %v", i, k, st)
+		}
+		fn := fnC.Get(k)
+		if isNil(k) != (fn == nil) || (fn != nil && fn() != k) {
+			return fmt.Errorf("Get #%d of key %d with V=func() int returned a wrong function", i, k)
+		}
+		sv := structC.Get(k)
+		if want := (struct{ A, B int }{k, -k}); (isNil(k) && sv != struct{ A, B int }{}) || (!isNil(k) && sv != want) {
+			return fmt.Errorf("Get #%d of key %d with V=struct returned %v", i, k, sv)
+		}
+	}
+	for id, n := range cons {
+		if n != 1 {
+			return fmt.Errorf("constructor #%d ran %d times", id, n)
+		}
+	}
+	again := false
+	seen := map[int]bool{}
+	for _, k := range c.Keys {
+		if seen[k] && isNil(k) {
+			again = true
+		}
+		seen[k] = true
+	}
+	if again {
+		vp.Class("typed:nil-result-requested-again-after-construction")
+		vp.NonTrivialStr("c17.typed", fmt.Sprint(c))
+		vp.Sample("typed", c)
+	}
+	return nil
+}
+
+var typedProp = vp.Register(vp.Prop[TypedCase]{
+	Kind: "c17.typed", Base: 3000,
+	Gen: func(t *rapid.T) TypedCase {
+		return TypedCase{
+			Keys:   rapid.SliceOfN(rapid.IntRange(0, 5), 1, 12).Draw(t, "keys"),
+			NilFor: rapid.SliceOfN(rapid.IntRange(0, 5), 0, 4).Draw(t, "nilfor"),
+		}
+	},
+	Check: checkTyped,
+})
+
+func TestTyped(t *testing.T) { vp.Run(t, typedProp) }
 
 // Act is one step of a harness script.
 type Act struct {
